@@ -236,3 +236,19 @@ Proof.
   - destruct (has_typeb (restrict pi k r) (pi id) v) eqn:E'; [|reflexivity].
     pose proof (has_typeb_restriction pi k r id v Hpi E'). congruence.
 Qed.
+
+(** the hypotheses of the converse direction / of [example_restriction_same_outcome] are
+    satisfiable: [ex_reg] restricted to what is reachable from a::c::E<u8> (5 of 8 entries) *)
+From V Require Import Model.ExamplesTG Model.ExamplesFam Proofs.ExamplesC17 Proofs.ResolveTotal.
+
+Example restriction_closed_satisfiable :
+  exists pi k r id,
+    renumbering (N.of_nat (List.length r)) pi /\ closed (restrict pi k r) /\
+    in_reg (restrict pi k r) (pi id) /\ (List.length (restrict pi k r) < List.length r)%nat /\ pi id <> id.
+Proof.
+  exists ex_pi_keep, ex_keep_k, ex_reg, 4%N.
+  split; [exact ex_pi_keep_renumbering|].
+  split; [apply closed_reg_closed; vm_compute; reflexivity|].
+  split; [unfold in_reg; vm_compute; reflexivity|].
+  split; [vm_compute; repeat constructor|vm_compute; discriminate].
+Qed.
